@@ -197,7 +197,7 @@ def run(ctx):
         for _ in range(1500 if tier == 'quick' else 30000):
             cases.append((aname, [rng.choice(alpha) for _ in range(rng.randint(maxlen + 1, maxlen + 5))]))
     if ctx.get('replay'):
-        rp = json.load(open(ctx['replay'])); cases = [(rp.get('alphabet', '?'), rp['tokens'])]
+        rp = json.load(open(ctx['replay'])); cases = [(rp.get('alphabet', '?'), rp['tokens'])] if 'input' not in rp else []
     lines = []; meta = []
     for aname, seq in cases:
         top = seq + ['NEWLINE']
